@@ -126,22 +126,35 @@ class Facts:
     def witness(self, name, sources_dir=None, gen=None):
         """Export a witness crate (path-depends on the repo, derive patched to the in-repo macro).
         sources_dir: directory with src/lib.rs (and more); gen: callable writing sources into a dir."""
-        out = os.path.join(self.dir, "witness_" + name)
+        # the cache key covers the witness sources as well as the repository tree
+        stage = os.path.join(WORK, "witness", "stage-%s-%d" % (name, os.getpid()))
+        if os.path.exists(stage):
+            shutil.rmtree(stage)
+        os.makedirs(os.path.join(stage, "src"))
+        if sources_dir:
+            for f in os.listdir(os.path.join(sources_dir, "src")):
+                shutil.copy(os.path.join(sources_dir, "src", f), os.path.join(stage, "src", f))
+        if gen:
+            gen(stage)
+        h = hashlib.sha256()
+        for f in sorted(os.listdir(os.path.join(stage, "src"))):
+            h.update(f.encode())
+            h.update(open(os.path.join(stage, "src", f), "rb").read())
+        wh = h.hexdigest()[:10]
+        out = os.path.join(self.dir, "witness_%s_%s" % (name, wh))
         path = os.path.join(out, name + ".json")
         if os.path.exists(path):
+            shutil.rmtree(stage, ignore_errors=True)
             return path
         with Lock("export-w-" + name):
             if os.path.exists(path):
+                shutil.rmtree(stage, ignore_errors=True)
                 return path
             crate_dir = os.path.join(WORK, "witness", self.hash, name)
             if os.path.exists(crate_dir):
                 shutil.rmtree(crate_dir)
-            os.makedirs(os.path.join(crate_dir, "src"))
-            if sources_dir:
-                for f in os.listdir(os.path.join(sources_dir, "src")):
-                    shutil.copy(os.path.join(sources_dir, "src", f), os.path.join(crate_dir, "src", f))
-            if gen:
-                gen(crate_dir)
+            os.makedirs(os.path.dirname(crate_dir), exist_ok=True)
+            shutil.move(stage, crate_dir)
             write_witness_manifest(crate_dir, name, self.repo)
             t0 = time.time()
             tgt = os.path.join(WORK, "tgt", "witness")
